@@ -60,6 +60,7 @@ func (p *Program) VerifyContract(ct *Contract, tier string) *Unit {
 		c.lockCheck = ct.LockOnly || activeProperty == "C25"
 		c.lockOnly = ct.LockOnly
 		c.nguard = 0
+		c.acqInit = nil
 		c.tier = tier
 		func() {
 			defer func() {
